@@ -128,6 +128,47 @@ def coq_build(module, timeout=3000):
     return ok, log
 
 
+def regen_for(module):
+    """regenerate, from /repo's working tree, every gen/ table the module imports (transitively); -> [(table, error)]"""
+    seen, gens, todo = set(), [], [module]
+    while todo:
+        m = todo.pop()
+        if m in seen:
+            continue
+        seen.add(m)
+        path = os.path.join(COQ, 'theories', m + '.v')
+        if not os.path.exists(path):
+            continue
+        for line in open(path):
+            mm = re.match(r'\s*From\s+Utap(\.gen)?\s+Require\s+(?:Import|Export)\s+(.*?)\.\s*$', line)
+            if mm:
+                for x in mm.group(2).split():
+                    x = x.split('.')[-1]
+                    if x.startswith('Gen_'):
+                        if x not in gens: gens.append(x)
+                    else:
+                        todo.append(x)
+    errs = []
+    for g in gens:
+        try:
+            with Lock('regen'):
+                if g == 'Gen_OpTable':
+                    import exprgen; exprgen.Table()
+                elif g == 'Gen_PrintPrec':
+                    import gen_prec; gen_prec.write()
+                elif g == 'Gen_Sizes':
+                    import gen_prec; gen_prec.write_sizes()
+                elif g == 'Gen_LR':
+                    import gen_lr; gen_lr.write()
+                elif g == 'Gen_StartCond':
+                    import gen_lex; gen_lex.startcond_table()
+                elif g == 'Gen_CommentRules':
+                    import gen_lex; gen_lex.comment_rules()
+        except Exception as e:           # a translator that cannot read the source any more: the tie is broken, not the run
+            errs.append((g, '%s: %s' % (type(e).__name__, e)))
+    return errs
+
+
 def theorem_names(module):
     src = open(os.path.join(COQ, 'theories', module + '.v')).read()
     src = re.sub(r'\(\*.*?\*\)', '', src, flags=re.S)
@@ -297,6 +338,8 @@ class Run:
 
     def proofs(self, module=None):
         module = module or 'Properties_' + self.prop
+        for gen, err in regen_for(module):
+            self.tie_broken('translator of %s from the current source' % gen, err)
         r = check_proofs(module)
         self.cov['obligations'] += r['obligations']
         self.cov['discharged'] += r['discharged']
